@@ -757,6 +757,10 @@ func (e *Engine) builtin(name string, args []Value, x *ssa.Call, guard T) Value 
 			return bv(uint64(n), 64)
 		}
 		tmp := make([]Value, n)
+		if accessHook != nil {
+			accessHook(Ptr{l: s.base.kids[s.off]}, int64(n)*sizeof(et), false)
+			accessHook(Ptr{l: d.base.kids[d.off]}, int64(n)*sizeof(et), true)
+		}
 		for i := 0; i < n; i++ {
 			tmp[i] = s.base.kids[s.off+i].load()
 		}
